@@ -159,7 +159,9 @@ func init() {
 		Groups: []Group{
 			{Funcs: `^primitive\.(Write|LengthOf)[A-Za-z]+$`, OnlyCt: true, Classes: c03Classes},
 			{Funcs: `^\(\*frame\.codec\)\.(uncompressedBodyLength|encodeBodyUncompressed|EncodeHeader|encodeFrameUncompressed|EncodeRawFrame)$`, OnlyCt: true, Classes: c03Classes},
-			{Funcs: `^message\.lemmaLen[A-Za-z]+$`, OnlyCt: true, Classes: c03Classes},
+			{Funcs: `^message\.lemmaLen[A-Za-z]+$|^message\.lemmaDecodeLen[A-Za-z]+$`, OnlyCt: true, Classes: c03Classes},
+			// implementers refine the interface contract Error.GetErrorMessage (each returns its own field)
+			{Funcs: `^\(\*message\.[A-Za-z]+\)\.GetErrorMessage$`, Classes: []string{"post", "cover"}},
 			// type descriptors ([option]): per-kind writer/length pairs and the top-level agreement lemma
 			{Funcs: `^datatype\.(write|lengthOf)(Custom|List|Set|Map)Type$|^datatype\.lemmaDataTypeLen$`, OnlyCt: true, Classes: c03Classes},
 			// an empty compressed body is exactly 5 bytes on the wire and the reader consumes all 5
@@ -170,7 +172,7 @@ func init() {
 			"encLen(codec, message, version): the frame-level statements use one abstract length per (codec, message, version); it is discharged per codec by lemma functions that execute Encode and EncodedLength on the same message - for 13 of the 17 codecs (STARTUP, OPTIONS, READY, AUTHENTICATE, AUTH_CHALLENGE, AUTH_RESPONSE, AUTH_SUCCESS, SUPPORTED, QUERY, PREPARE, EXECUTE, REVISE, ERROR); BATCH, RESULT, REGISTER and EVENT are NOT under proof; the reason map of the failure errors is tied to one abstract length by assumption",
 			"body length fits a signed 32-bit integer (precondition of encodeFrameUncompressed / EncodeRawFrame); messages are not modified while being encoded",
 			"type descriptors: custom, list, set and map writer/length pairs are proved against one abstract length per descriptor (dtLen), and a lemma executes WriteDataType and LengthOfDataType on the same descriptor; user-defined types and tuples (loops over field types) are tied to one abstract length each by ASSUMPTION",
-			"the decoder half (DecodeFrame consumes header + BodyLength) is not covered here (C05 covers the raw operations); for compressed bodies only the LZ4 empty-message format (5 bytes, all consumed) is stated",
+			"decoder half, per codec: Decode consumes exactly EncodedLength(decoded message) bytes for AUTHENTICATE, AUTH_RESPONSE, AUTH_CHALLENGE, AUTH_SUCCESS, OPTIONS, READY, REVISE and 15 ERROR kinds (all but the failure errors with reason maps and FUNCTION_FAILURE) - lemma functions running the real Decode and then the real EncodedLength; other codecs and the frame level (DecodeFrame consumes header + BodyLength) are not covered (C05 covers the raw operations); for compressed bodies only the LZ4 empty-message format (5 bytes, all consumed) is stated",
 		}})
 }
 
